@@ -2,7 +2,10 @@
 from __future__ import annotations
 
 import ast
+import re
 
+from ..symex import Symex, Obj, Func
+from ..terms import (T, sym, show, subterms, args_of, strip, expand_products, canon, is_num, t_mul, t_add, t_pow, calls)
 from ..model import AnalysisError, U, Defs, calls_in, call_name, walk_fn, kwarg, enclosing, enclosing_stmt, short
 from ..pathcond import conditions
 from . import common
@@ -36,42 +39,323 @@ IT = "intermediates:RegisteredIntermediate."
 FI = "factor_intermediates:"
 
 
+# ---------------------------------------------------------------------------
+# abstract values shared by the scenarios
+
+
+def mk_index(name, space=None, spin=""):
+    """Abstract ``Index``: a record with the attributes the library reads."""
+    space = space or space_name(name)
+    o = Obj(None, name)
+    o.attrs.update(name=name, space=space, spin=spin, space_and_spin=(space, spin))
+    return o
+
+
+def space_name(n):
+    return "occ" if n[0] in "ijklmno" else "virt" if n[0] in "abcdefgh" else "general"
+
+
+def split_names(x):
+    return re.findall(r"[a-z]\d*", x)
+
+
+def get_symbols_model(sx, a, kw):
+    """get_symbols: names -> Index records (records pass through)."""
+    x = a[0] if a else kw.get("indices")
+    if isinstance(x, T):
+        return NotImplemented
+    if isinstance(x, Obj):
+        return [x]
+    if isinstance(x, str):
+        x = split_names(x)
+    return tuple(mk_index(n) if isinstance(n, str) else n for n in x)
+
+
+class IndexSource:
+    """Model of ``Indices().get_generic_indices``: every call hands out names never handed out before (per path);
+    ``surplus`` > 0 models a generator that returns more than requested."""
+
+    def __init__(self, surplus=0):
+        self.surplus = surplus
+        self.reset()
+
+    def reset(self, sx=None):
+        self.calls = []          # one dict name -> (space, spin) per call
+        self.requests = []
+
+    def __call__(self, sx, a, kw):
+        if any(isinstance(v, T) for v in kw.values()) or "**" in kw:
+            return NotImplemented
+        n_call = len(self.calls)
+        made, out = {}, {}
+        self.requests.append(dict(kw))
+        for k, n in kw.items():
+            parts = k.split("_")
+            sp, spin = (parts[0], parts[1]) if len(parts) == 2 else (parts[0], "")
+            if n == 0:
+                continue
+            lst = []
+            for i in range(n + self.surplus):
+                nm = f"<gen{n_call}.{sp}{'_' + spin if spin else ''}.{i}>"
+                lst.append(mk_index(nm, sp, spin))
+                made[nm] = (sp, spin)
+            out[(sp, spin)] = lst
+        self.calls.append(made)
+        return out
+
+
+CACHE_DECORATORS = ("cached_member", "cached_property", "cache", "lru_cache")
+
+
+def memo_hooks(model, modules, vocabulary=()):
+    """Functions behind a caching decorator evaluate once per argument tuple: the second call returns the first result
+    without re-running the body (so effects such as index generation inside them happen once)."""
+    hooks, memo = {}, {}
+    for mod in modules:
+        m = model.module(mod)
+        for q, fn in m.functions.items():
+            decos = [U(d).split("(")[0].split(".")[-1] for d in fn.decorator_list]
+            if not any(d in CACHE_DECORATORS for d in decos) or q.split(".")[-1] in vocabulary:
+                continue
+
+            def hook(sx, a, kw, fn=fn, q=f"{mod}:{q}"):
+                from ..symex import _freeze
+                key = (q, repr(_freeze(list(a))), repr(sorted((k, repr(_freeze(v))) for k, v in kw.items())))
+                if key not in memo:
+                    bound = a[0] if a and fn.args.args and fn.args.args[0].arg in ("self", "cls") else None
+                    f = Func(fn, [], fn._module, fn._qual, bound=bound)
+                    memo[key] = sx._invoke(f, list(a[1:]) if bound is not None else list(a), kw, fn)
+                return memo[key]
+            hooks[f"{mod}:{q}"] = hook
+            if "." in q:
+                hooks[".".join(q.split(".")[-2:])] = hook
+    return hooks, memo
+
+
+def dict_of(t):
+    """python dict of a frozen ``dict`` term."""
+    if isinstance(t, T) and t.op == "dict":
+        return dict(t.args)
+    return None
+
+
+def nm(x):
+    return x.args[0] if isinstance(x, T) and x.op == "sym" else x.name if isinstance(x, Obj) else x
+
+
+# ---------------------------------------------------------------------------
+# R11a expansion of a definition on requested indices
+
+EXPAND_VOCAB = {"get_symbols", "order_substitutions", "_build_expanded_itmd", "get_generic_indices"}
+
+
+def _expand_sx(ctx, src, build, what):
+    hooks, memo = memo_hooks(ctx.model, ["intermediates"], EXPAND_VOCAB)
+    hooks.update({"get_symbols": get_symbols_model, "get_generic_indices": src, "_build_expanded_itmd": build})
+    sx = Symex(ctx.model, inline=lambda q: q.split(":")[-1].split(".")[-1] not in EXPAND_VOCAB, hooks=hooks, what=what,
+               max_paths=4096)
+
+    def start(sx_):
+        src.reset()
+        memo.clear()
+    sx.on_start = start
+    return sx
+
+
+def _subs_of(value):
+    """(base, substitution dict, simultaneous/ordered) of ``base.subs(order_substitutions(D))`` | ``base.subs(D, simultaneous=True)``."""
+    if not (isinstance(value, T) and value.op == "mcall" and value.args[1] == "subs"):
+        return None
+    a = args_of(value)
+    arg = a.get(0)
+    if isinstance(arg, T) and arg.op == "call" and arg.args[0] == "order_substitutions":
+        d = dict_of(args_of(arg).get("subsdict", args_of(arg).get(0)))
+        return (value.args[0], d, True) if d is not None else None
+    d = dict_of(arg)
+    if d is not None:
+        return value.args[0], d, a.get("simultaneous") is True
+    return None
+
+
+def _check_expansion(ctx, rule, fn, what, sub, src_call, targets, requested, contracted, key):
+    """the substitution of one expansion: targets by position, every contracted index onto its own fresh index."""
+    base, d, ordered = sub
+    d = {nm(k): nm(v) for k, v in d.items()}
+    want_t = {t: r for t, r in zip(targets or (), requested)}
+    got_t = {k: v for k, v in d.items() if k in (targets or ())}
+    ctx.check(rule, fn, got_t == want_t and (targets is None or len(targets) == len(requested)),
+              f"{what}: base targets -> requested indices by position",
+              f"{what}: the target indices of the definition are mapped {got_t}, expected {want_t}", key=f"target map {key}")
+    got_c = {k: v for k, v in d.items() if k not in (targets or ())}
+    cnames = [c for c, _ in contracted or ()]
+    ok = sorted(got_c) == sorted(cnames)
+    why = f"{what}: substituted contracted indices {sorted(got_c)}, the definition contracts {sorted(cnames)}"
+    if ok:
+        imgs = list(got_c.values())
+        if len(set(imgs)) != len(imgs):
+            ok, why = False, f"{what}: two contracted indices share one replacement: {got_c}"
+        for c, ss in contracted or ():
+            g = src_call.get(got_c[c])
+            if g is None:
+                ok, why = False, (f"{what}: contracted index {c} is replaced by `{got_c[c]}`, which was not generated for this "
+                                  "expansion (indices of two expansions coincide: an index then occurs four times in a product)")
+                break
+            if g != ss:
+                ok, why = False, f"{what}: contracted index {c} {ss} is replaced by an index of {g}"
+                break
+    ctx.check(rule, fn, ok, f"{what}: one fresh generic index per contracted index, same (space, spin), all different", why,
+              key=f"contracted map {key}")
+    ctx.check(rule, fn, ordered, f"{what}: substitution executed as a simultaneous one (ordered)",
+              f"{what}: the substitution dict is applied sequentially without ordering", key=f"ordered {key}")
+    return base
+
+
 def r11a(ctx):
     rule = "R11a"
     fn = ctx.model.fn(IT + "expand_itmd")
-    up = [c for c in calls_in(fn) if call_name(c) == "update" and U(c.func.value) == "subs"]
-    ctx.check(rule, fn, len(up) == 1 and U(up[0].args[0]) == "{o: n for o, n in zip(base_target, indices)}",
-              "target map: base targets -> requested indices by position", "target map changed", key="target map")
-    a = {U(x.targets[0]): U(x.value) for x in walk_fn(fn) if isinstance(x, ast.Assign)}
-    ctx.check(rule, fn, a.get("spaces") == "[s.space_and_spin for s in base_contracted]" and
-              a.get("kwargs") == "Counter((f'{sp}_{spin}' if spin else sp for sp, spin in spaces))" and
-              a.get("contracted") == "Indices().get_generic_indices(**kwargs)",
-              "one fresh generic index per base contracted index, same (space, spin)", "generation of fresh contracted indices changed",
-              key="fresh contracted")
-    ctx.check(rule, fn, a.get("subs[old]") == "contracted[sp].pop()", "every base contracted index is replaced", "contracted map changed",
-              key="contracted map")
-    lp = [n for n in walk_fn(fn) if isinstance(n, ast.For) and U(n.iter) == "zip(base_contracted, spaces)"]
-    ctx.check(rule, fn, len(lp) == 1, "replacement drawn from the pool of the index's own (space, spin)", "pairing changed", key="pool pairing")
-    ra = [n for n in walk_fn(fn) if isinstance(n, ast.Raise) and ("any((li for li in contracted.values()))", True) in conditions(n)]
-    ctx.check(rule, fn, len(ra) == 1, "surplus fresh indices are an error", "surplus check removed", key="surplus")
-    z = [n for n in walk_fn(fn) if isinstance(n, ast.Raise) and any("itmd is S.Zero" in t and pol for t, pol in conditions(n))]
-    ctx.check(rule, fn, len(z) == 1, "substitution that annihilates the definition is refused", "zero guard removed", key="zero guard")
-    ctx.check(rule, fn, a.get("subs") in ("order_substitutions(subs)",) or any(U(x.value) == "order_substitutions(subs)" for x in walk_fn(fn)
-                                                                              if isinstance(x, ast.Assign)),
-              "substitution ordered", "substitution not ordered", key="ordered")
-    ctx.check(rule, fn, a.get("itmd") is not None and any(U(x.value) == "expanded_itmd.expr.subs(subs)" for x in walk_fn(fn) if isinstance(x, ast.Assign)),
-              "applied to the cached base expression", "application changed", key="apply")
-    ctx.check(rule, fn, a.get("expanded_itmd") == "self._build_expanded_itmd(fully_expand)", "base expression of the requested expansion level",
-              "fully_expand not forwarded to the definition", key="level")
-    ex = [c for c in calls_in(fn) if U(c.func) == "e.Expr"]
-    ctx.check(rule, fn, len(ex) == 1 and U(kwarg(ex[0], "target_idx")) == "indices", "result carries the requested indices as targets",
-              "targets of the expanded definition changed", key="targets")
-    sp = [n for n in walk_fn(fn) if isinstance(n, ast.Raise) and ("any((idx.spin for idx in indices))", True) in conditions(n)]
-    ctx.check(rule, fn, len(sp) == 1, "indices with spin refused", "spin check removed", key="spin")
+    tnames, cn = ("i", "j", "a", "b"), (("k", ("occ", "")), ("c", ("virt", "")), ("l", ("occ", "")))
+    req = ("m", "n", "e", "f")
+    state = {}
+
+    def scenario(targets, contracted, requested, return_sympy, spin_at=None):
+        def build(sx, a, kw):
+            state["level"] = (a[1:], dict(kw))
+            return Obj(None, "base", expr=sym("BASE"), target=None if targets is None else tuple(mk_index(t) for t in targets),
+                       contracted=None if contracted is None else tuple(mk_index(c, s[0], s[1]) for c, s in contracted))
+
+        def args():
+            ind = tuple(mk_index(r, spin="a" if spin_at == k else "") for k, r in enumerate(requested))
+            return dict(self=Obj("intermediates:t2_2", "self", _default_idx=tnames), indices=ind, return_sympy=return_sympy,
+                        fully_expand=sym("LEVEL"))
+        return build, args
+
+    def run(src, build, args, what):
+        sx = _expand_sx(ctx, src, build, what)
+        return sx.run(fn, args)
+
+    for targets, contracted, rs, tag in ((tnames, cn, False, "full"), (tnames, cn, True, "sympy"), (tnames, None, True, "no contraction"),
+                                         (tnames, (("k", ("occ", "")), ("c", ("virt", "b")), ("d", ("virt", ""))), True, "spin")):
+        src = IndexSource()
+        build, args = scenario(targets, contracted, req, rs)
+        outs = run(src, build, args, f"expand_itmd[{tag}]")
+        rets = [o for o in outs if o.kind == "return"]
+        ctx.check(rule, fn, len(rets) >= 1, f"[{tag}] a valid request is expanded",
+                  f"expand_itmd[{tag}] refuses a valid request on every path: {outs[:3]}", key=f"returns {tag}")
+        for n_o, o in enumerate(outs):
+            # src state belongs to the last path only -> recompute from the names (self-describing)
+            gen = {}
+            for t in subterms(o.value) if o.kind == "return" else ():
+                if t.op == "sym" and str(t.args[0]).startswith("<gen"):
+                    _, sp, _ = str(t.args[0])[1:-1].split(".")
+                    gen[t.args[0]] = tuple(sp.split("_")) if "_" in sp else (sp, "")
+            zero = [a for a, pol in o.path if pol and a.op == "cmp" and a.args[0] == "is" and any(
+                isinstance(x, T) and show(x).endswith("S.Zero") for x in a.args[1:])]
+            if o.kind == "raise":
+                # refused exactly when the substituted definition vanishes although the definition does not
+                vanished = [a for a in zero if any(isinstance(x, T) and x.op == "mcall" and x.args[1] == "subs" for x in a.args[1:])]
+                base_nz = any(not pol and a.op == "cmp" and a.args[0] == "is" and sym("BASE") in a.args[1:] for a, pol in o.path)
+                ctx.check(rule, fn, o.exc == "ValueError" and vanished and base_nz, f"[{tag}] annihilating substitution refused",
+                          f"expand_itmd[{tag}] raises {o.exc} on the path {o.path!r}", key=f"zero guard {tag} {n_o}")
+                continue
+            v = o.value
+            if not rs:
+                okw = isinstance(v, T) and v.op == "call" and v.args[0] == "Expr"
+                tgt = args_of(v).get("target_idx") if okw else None
+                ctx.check(rule, fn, okw and tuple(nm(x) for x in (tgt or ())) == req, f"[{tag}] result carries the requested indices as targets",
+                          f"expand_itmd[{tag}]: wrapped result has target indices {show(tgt)}, expected {req}", key=f"targets {tag} {n_o}")
+                v = args_of(v).get("e", args_of(v).get(0)) if okw else v
+            sub = _subs_of(v)
+            if sub is None:
+                ctx.bad(rule, fn, f"expand_itmd[{tag}] does not return the substituted definition: {show(v)[:200]}", key=f"apply {tag} {n_o}")
+                continue
+            base = _check_expansion(ctx, rule, fn, f"expand_itmd[{tag}]", sub, gen, targets, req, contracted, key=f"{tag} {n_o}")
+            ctx.check(rule, fn, base == sym("BASE"), f"[{tag}] applied to the cached base expression",
+                      f"expand_itmd[{tag}] substitutes in {show(base)[:120]}", key=f"apply {tag} {n_o}")
+            # vanishing result without a vanishing definition must not be returned
+            bad = [a for a in zero if any(isinstance(x, T) and x.op == "mcall" and x.args[1] == "subs" for x in a.args[1:])] and \
+                any(not pol and a.op == "cmp" and a.args[0] == "is" and sym("BASE") in a.args[1:] for a, pol in o.path)
+            ctx.check(rule, fn, not bad, f"[{tag}] no vanishing expansion of a non-vanishing definition returned",
+                      f"expand_itmd[{tag}] returns although the substitution annihilated the definition", key=f"zero guard ret {tag} {n_o}")
+        raised = [o for o in outs if o.kind == "raise"]
+        ctx.check(rule, fn, len(raised) >= 1, f"[{tag}] substitution that annihilates the definition is refused",
+                  f"expand_itmd[{tag}]: no path refuses a substitution that turns a non-zero definition into zero", key=f"zero guard {tag}")
+        lv = state.get("level")
+        ctx.check(rule, fn, lv is not None and (list(lv[0]) == [sym("LEVEL")] or lv[1].get("fully_expand") == sym("LEVEL")),
+                  f"[{tag}] base expression of the requested expansion level",
+                  f"expand_itmd[{tag}]: _build_expanded_itmd is called with {lv}; fully_expand is not forwarded to the definition",
+                  key=f"level {tag}")
+    # refusals
+    src = IndexSource()
+    build, args = scenario(tnames, cn, req, True, spin_at=2)
+    outs = run(src, build, args, "expand_itmd[spin index]")
+    ctx.check(rule, fn, outs and all(o.kind == "raise" and o.exc == "NotImplementedError" for o in outs), "indices with spin refused",
+              f"expand_itmd accepts a requested index with spin: {outs}", key="spin")
+    src = IndexSource(surplus=1)
+    build, args = scenario(tnames, cn, req, True)
+    outs = run(src, build, args, "expand_itmd[surplus]")
+    ctx.check(rule, fn, outs and all(o.kind == "raise" and o.exc == "RuntimeError" for o in outs), "surplus fresh indices are an error",
+              f"expand_itmd does not refuse left-over generated indices: {outs}", key="surplus")
+    _r11a_twice(ctx)
+    _r11a_validate(ctx)
+
+
+def _r11a_twice(ctx):
+    """two expansions in one run: the contracted indices of the second are generated anew (nothing between the request and the
+    generator may be cached)"""
+    rule = "R11a"
+    fn = ctx.model.fn(IT + "expand_itmd")
+    cn = (("k", ("occ", "")), ("c", ("virt", "")))
+    src = IndexSource()
+
+    def build(sx, a, kw):
+        return Obj(None, "base", expr=sym("BASE"), target=tuple(mk_index(t) for t in "ijab"),
+                   contracted=tuple(mk_index(c, s[0], s[1]) for c, s in cn))
+    sx = _expand_sx(ctx, src, build, "expand_itmd twice")
+    drv = ast.parse("r1 = self.expand_itmd(indices=I1, return_sympy=True, fully_expand=LEVEL)\n"
+                    "r2 = self.expand_itmd(indices=I2, return_sympy=True, fully_expand=LEVEL)\n").body
+    outs = sx.run_block(fn, drv, lambda: dict(self=Obj("intermediates:t2_2", "self", _default_idx=tuple("ijab")), LEVEL=sym("LEVEL"),
+                                              I1=tuple(mk_index(x) for x in "mnef"), I2=tuple(mk_index(x) for x in "mnef")))
+    done = [o for o in outs if o.kind == "fall"]
+    ctx.check(rule, fn, len(done) >= 1, "two consecutive expansions complete", f"two consecutive expansions: {outs[:3]}", key="twice returns")
+    for n_o, o in enumerate(done):
+        s1, s2 = _subs_of(o.env["r1"]), _subs_of(o.env["r2"])
+        if s1 is None or s2 is None:
+            ctx.bad(rule, fn, "two expansions: result is not the substituted definition", key=f"twice shape {n_o}")
+            continue
+        i1 = {nm(v) for k, v in s1[1].items() if nm(k) in ("k", "c")}
+        i2 = {nm(v) for k, v in s2[1].items() if nm(k) in ("k", "c")}
+        ctx.check(rule, fn, not (i1 & i2) and len(i1) == 2 and len(i2) == 2,
+                  "two expansions of one intermediate use disjoint contracted indices",
+                  f"two expansions of the same intermediate share the contracted indices {sorted(i1 & i2)} (generated once and "
+                  "re-used): in a product of two such factors an index occurs four times", key=f"twice {n_o}")
+
+
+def _r11a_validate(ctx):
+    rule = "R11a"
     vi = ctx.model.fn(IT + "validate_indices")
-    ra = [U(n._parent.test) if isinstance(n._parent, ast.If) else "" for n in walk_fn(vi) if isinstance(n, ast.Raise)]
-    ctx.check(rule, vi, ra == ["len(indices) != len(default)", "any((s.space != d.space for s, d in zip(indices, default)))"],
-              "requested indices: same number and position-wise same space as the defaults", f"validate_indices checks {ra}", key="validate")
+    default = ("i", "j", "a", "b")
+    hooks = {"get_symbols": get_symbols_model}
+    sx = Symex(ctx.model, inline=lambda q: q.split(".")[-1] not in ("get_symbols",), hooks=hooks, what="validate_indices")
+    table = [(None, True), ("klcd", True), ("ijab", True), ("kl", False), ("klcde", False), ("", False)]
+    for pos in range(4):
+        bad = list("klcd")
+        bad[pos] = "c" if pos < 2 else "k"
+        table.append(("".join(bad), False))
+    table += [("cdkl", False), ("kcld", False)]
+    for given, valid in table:
+        outs = sx.run(vi, lambda: dict(self=Obj("intermediates:t2_2", "self", _default_idx=default),
+                                       indices=None if given is None else tuple(mk_index(x) for x in split_names(given))))
+        if valid:
+            want = list(default if given is None else split_names(given))
+            ok = len(outs) == 1 and outs[0].kind == "return" and not isinstance(outs[0].value, T) and \
+                [nm(x) for x in outs[0].value] == want
+            ctx.check(rule, vi, ok, f"indices {given!r} accepted and returned in the given order",
+                      f"validate_indices({given!r}) for defaults {default}: {outs}", key=f"validate {given}")
+        else:
+            ctx.check(rule, vi, outs and all(o.kind == "raise" for o in outs),
+                      f"indices {given!r} refused (number / position-wise space differ from {''.join(default)})",
+                      f"validate_indices accepts {given!r} for the default indices {''.join(default)}: the definition would be "
+                      "expanded on indices of the wrong space", key=f"validate {given}")
 
 
 def r11b(ctx):
